@@ -28,4 +28,4 @@ Extraction "model.ml"
   Footnotes BqProcess RefsAdd RefsLookup
   seg_value_h sl_bytes
   md_of html_of
-  ListItemOpen ThematicBreakOpen AtxOpenR FenceOpenR FenceContinueR ScanDelimiter CodeSpanParse.
+  ListItemOpen ThematicBreakOpen AtxOpenR FenceOpenR FenceContinueR ScanDelimiter CodeSpanParse CodeBlockOpen CodeBlockContinue CodeBlockClose.
